@@ -16,19 +16,19 @@ CHECKS = {
          "Sampling over seeded worlds (all key types), each an accepting baseline plus 1-3 faults; Ok with a false necessary condition is a violation. Exploration level: the input space is unbounded and the oracle is one-directional, as the property is.", "§3 C01"),
  "C02": ("exploration", "seeded multi-party simulation: who signs what, misfiled/duplicated/lost/corrupted link files, Byzantine signers; counting oracle from ground truth",
          "Sampling over seeded populations of the link directory; the verifier must not accept when fewer than max(threshold,1) distinct authorized, listed keys validly signed evidence for some step.", "§3 C02"),
- "C07": ("exploration", "seeded multi-party simulation with a dissenting authorized signer; agreement oracle from ground truth",
+ "C07": ("exploration", "seeded multi-party simulation with a dissenting authorized signer (one among 2-9), link directories updated in place / delivered as symbolic links / read under EIO, and pipeline runs in which one step is really carried out by two functionaries on their own copies of the hand-over; agreement oracle from ground truth",
          "Sampling over steps with threshold >= 2 where one validly signing functionary reports one path/digest/algorithm/entry differently.", "§3 C07"),
- "C13": ("exploration", "seeded schedule exploration: hash-map keys injected through the getrandom seam, file creation order, N repetitions of one world must agree",
+ "C13": ("exploration", "seeded schedule exploration: hash-map keys injected through the getrandom seam, file and directory-entry creation order, short reads / EINTR on every other repetition, the same world in a directory that held another world a moment ago vs. a fresh one; N repetitions of one world must agree",
          "Each world is verified 12 (quick) / 48 (thorough) times in fresh threads with different injected hash keys and arrival orders; no model involved.", "§3 C13"),
  "C15": ("exploration", "seeded simulation of delegation trees with faults inside the delegated level and misdelivered inner links; recursive necessary-condition oracle plus summary membership",
          "Sampling over delegation trees of depth 1-2; Ok while the delegated level cannot pass against its own sub-directory is a violation; the returned summary must come from counting first/last-step evidence.", "§3 C15"),
  "C06": ("fault_enumeration", "simulated wall clock (clock_gettime seam): grid of expiry-vs-clock offsets x UTC-offset notations x verifier instants x delegation depth x clock jumps per sampled world",
          "Per sampled world the whole grid of clock faults is enumerated; the oracle converts the expiry text with its own civil-date arithmetic and compares with the simulated instants.", "§3 C06"),
- "C08": ("fault_enumeration", "real inspection processes (scripted actor) under an enumerated grid of failing verification stage x process outcome; event log of actor starts, directory listing and verdict",
+ "C08": ("fault_enumeration", "real inspection processes (scripted actor) under an enumerated grid of failing verification stage x process outcome, plus pipeline runs (chain really executed, inspection over the delivered product, its rules judged by the reference model); event log of actor starts, directory listing and verdict",
          "Per sampled world every failing stage is combined with every inspection outcome; the actor's own event log is the witness of whether it was started.", "§3 C08"),
  "C14": ("exploration", "storage and stream fault injection (torn, flipped, overwritten, garbage, wrong-kind, EISDIR, dangling files; Byzantine-but-signed content; faulting readers) with panic/abort/hang detection in watched worker processes",
          "Every library call runs under catch_unwind inside a watched worker process; any panic, abort, stack overflow or watchdog expiry is a violation. Scoped to the surfaces faults reach (DESIGN §3 C14).", "§3 C14"),
- "C03": ("exploration", "differential simulation: generated rule lists over step histories with in-transit artifact faults, judged both ways against an executable reference model of the specification's rule algorithm",
+ "C03": ("exploration", "differential simulation: generated rule lists over step histories with in-transit artifact faults, and (one run in sixteen) the whole chain really carried out inside the simulator — in_toto_run per step in workspaces on tmpfs with scripted commands, an artifact transport that tampers / injects / removes / renames, delivery to the verifier, in_toto_verify — judged both ways against an executable reference model of the specification's rule algorithm evaluated on the harness's own snapshots",
          "Two-sided comparison of the verifier's rule verdict with the reference model on the portable glob subset; weakest fit of the family for this property, stated in DESIGN §3.", "§3 C03"),
  "C04": ("exploration", "signing-ceremony simulation: duplicated/reordered/lost/forged/mislabelled signature messages, hash-iteration schedules; counting model, both directions",
          "Sampling over ceremonies with all key types; soundness and (for at most one signature per key) completeness under every sampled hash schedule and permutation.", "§3 C04"),
@@ -38,7 +38,7 @@ CHECKS = {
          "Sampling over bodies (text pool incl. control/non-BMP characters), key types, construction paths and JSON layouts.", "§3 C09"),
  "C17": ("exploration", "channel simulation: byte-stream chunking/EINTR schedules and transport re-spelling; all decoding channels must agree",
          "Sampling over documents x re-spellings x chunk schedules; differential between channels, no model.", "§3 C17"),
- "C18": ("exploration", "recorder simulation: generated file-system histories and scripted step commands, read(2) faults; independent walk and one-shot digests as oracle",
+ "C18": ("exploration", "recorder simulation: generated file-system histories and scripted step commands, read(2) faults, and pipeline runs (every step's recorded link compared with the harness's own snapshots of its workspace before and after the command); independent walk and one-shot digests as oracle",
          "Sampling over trees/histories; fault-free and fault-injecting configurations are judged separately (narrow relaxation under read faults).", "§3 C18"),
 }
 
@@ -56,7 +56,7 @@ for cid in sorted(CHECKS):
         "replay_cmd_template": "sim/target/release/scsim replay {path}",
         "engine": "scsim",
         "level_claimed": {"category": cat, "text": text, "design_ref": "DESIGN.md " + ref},
-        "level_note": "Trusted: the harness (sim/src), the reference model (sim/src/refmodel.rs), unforgeability of the signature schemes, the libc-symbol seams (self-tested at every start). ring's signing entropy is not controllable; verdicts do not depend on it.",
+        "level_note": "A third of the seed blocks run their verifications on one long-lived thread per worker (thread-local state of the library carries over), the rest in a fresh thread per call (seeded hash-map keys). Trusted: the harness (sim/src), the reference model (sim/src/refmodel.rs), unforgeability of the signature schemes, the libc-symbol seams (self-tested at every start). ring's signing entropy is not controllable; verdicts do not depend on it.",
         "technique": "deterministic simulation with fault injection: " + tech,
     })
 na = [{"property_id": k, "reason": v} for k, v in sorted(NA.items())]
